@@ -23,8 +23,9 @@ type c19Cfg struct {
 	T     string `json:"type"`
 	C     int
 	R, W  int // readers, writers
-	Menu  int // which set of entry points the threads run
-	Bound int
+	Menu    int // which set of entry points the threads run
+	Bound   int
+	Partial bool // readers only: the shared buffer's last frame is partly filled (C-1 samples appended after 5 frames)
 }
 
 type c19Case struct {
@@ -54,9 +55,20 @@ func (h *c19H) Threads() int { return h.cfg.R + h.cfg.W }
 
 func (h *c19H) Init() {
 	C := h.cfg.C
-	h.parent = dyn.Alloc(h.t, al(C, c19Frames, c19Frames))
-	for i := 0; i < C*c19Frames; i++ {
-		h.parent.SetSample(i, dyn.Tok(h.t, int64(1+i)))
+	if h.cfg.Partial {
+		// no shape method is called on the shared header before the threads start
+		h.parent = dyn.Alloc(h.t, al(C, c19Frames-1, c19Frames))
+		for i := 0; i < C*(c19Frames-1); i++ {
+			h.parent.SetSample(i, dyn.Tok(h.t, int64(1+i)))
+		}
+		for k := 0; k < C-1; k++ {
+			h.parent.AppendSample(dyn.Tok(h.t, int64(100+k)))
+		}
+	} else {
+		h.parent = dyn.Alloc(h.t, al(C, c19Frames, c19Frames))
+		for i := 0; i < C*c19Frames; i++ {
+			h.parent.SetSample(i, dyn.Tok(h.t, int64(1+i)))
+		}
 	}
 	h.roEnd = c19Frames
 	if h.cfg.W > 0 {
@@ -89,6 +101,18 @@ func c19Partner(t, variant int) int {
 func (h *c19H) reader(id int) {
 	C := h.cfg.C
 	n := C * h.roEnd
+	full := h.roEnd // frames that are completely filled
+	if h.cfg.Partial {
+		n = C*(c19Frames-1) + C - 1
+		full = c19Frames - 1
+	}
+	// the read-only part: the shared header itself when there are no writers, else a slice of it
+	ro := func() dyn.Buf {
+		if h.cfg.W == 0 {
+			return h.parent
+		}
+		return h.parent.Slice(0, h.roEnd)
+	}
 	ops := [][]string{{"samples", "read", "slice", "conv0"}, {"rstriped", "channel", "conv1", "shape"}, {"conv2", "read", "channel", "samples"}}[h.cfg.Menu%3]
 	for k, op := range ops {
 		schedx.Point("reader " + op)
@@ -102,7 +126,7 @@ func (h *c19H) reader(id int) {
 			h.mix(id, uint64(p.Len()), uint64(p.Cap()), uint64(p.Length()), uint64(p.Capacity()), uint64(p.Channels()), uint64(p.BitDepth()), uint64(p.BufferIndex(C-1, 2)))
 		case "read":
 			out := dyn.NewSl(h.t, n+1)
-			r := dyn.Read(p.Slice(0, h.roEnd), out)
+			r := dyn.Read(ro(), out)
 			h.mix(id, uint64(r))
 			for i := 0; i < n; i++ {
 				h.mix(id, out.Get(i).B)
@@ -110,17 +134,17 @@ func (h *c19H) reader(id int) {
 		case "rstriped":
 			outs := make([]dyn.Sl, C)
 			for c := range outs {
-				outs[c] = dyn.NewSl(h.t, h.roEnd)
+				outs[c] = dyn.NewSl(h.t, full) // only completely filled frames: the striped reader needs them
 			}
-			r := dyn.ReadStriped(p.Slice(0, h.roEnd), h.t, outs, false)
+			r := dyn.ReadStriped(ro(), h.t, outs, false)
 			h.mix(id, uint64(r))
 			for c := range outs {
-				for i := 0; i < h.roEnd; i++ {
+				for i := 0; i < full; i++ {
 					h.mix(id, outs[c].Get(i).B)
 				}
 			}
 		case "slice":
-			s := p.Slice(1, h.roEnd)
+			s := p.Slice(1, full)
 			h.mix(id, uint64(s.Len()), uint64(s.Cap()), uint64(s.Length()), uint64(s.Capacity()))
 			for i := 0; i < s.Len(); i++ {
 				h.mix(id, s.Sample(i).B)
@@ -129,14 +153,14 @@ func (h *c19H) reader(id int) {
 			for c := 0; c < C; c++ {
 				ch := p.Channel(c)
 				h.mix(id, uint64(ch.Length()), uint64(ch.Capacity()), uint64(ch.Channels()))
-				for i := 0; i < h.roEnd; i++ {
+				for i := 0; i < full; i++ {
 					h.mix(id, ch.Sample(i).B, uint64(ch.BufferIndex(c, i)))
 				}
 			}
 		case "conv0", "conv1", "conv2":
 			dt := c19Partner(h.t, int(op[4]-'0'))
 			dst := dyn.Alloc(dt, al(C, h.roEnd, h.roEnd))
-			r := dyn.Conv(p.Slice(0, h.roEnd), dst)
+			r := dyn.Conv(ro(), dst)
 			h.mix(id, uint64(r))
 			for i := 0; i < dst.Len(); i++ {
 				h.mix(id, dst.Sample(i).B)
@@ -213,8 +237,12 @@ func (h *c19H) Finish() []string {
 		h.haveRef, h.refObs, h.refFinal, h.refHdr = true, h.obs, final, hd
 		// the read-only region must still hold the initial tokens
 		var r []string
-		for i := 0; i < h.cfg.C*h.roEnd; i++ {
-			if final[i].Tok() != int64(1+i) {
+		for i := 0; i < h.cfg.C*h.roEnd && i < len(final); i++ {
+			want := int64(1 + i)
+			if h.cfg.Partial && i >= h.cfg.C*(c19Frames-1) {
+				want = int64(100 + i - h.cfg.C*(c19Frames-1))
+			}
+			if final[i].Tok() != want {
 				r = append(r, fmt.Sprintf("sequential run: read-only sample %d changed to %v", i, final[i]))
 			}
 		}
@@ -293,9 +321,20 @@ func c19Configs(tier string, race bool) []c19Cfg {
 		}
 	}
 	all := []int{0, 1, 2}
+	addPartial := func(R, bound int) {
+		for _, t := range types {
+			for _, C := range []int{2, 3} {
+				for _, m := range all {
+					r = append(r, c19Cfg{T: t, C: C, R: R, W: 0, Menu: m, Bound: bound, Partial: true})
+				}
+			}
+		}
+	}
 	if race {
 		if tier == "thorough" {
 			add(2, 0, -1, all, []int{1, 2})
+			addPartial(2, -1)
+			addPartial(3, 2)
 			add(3, 0, 3, all, []int{2})
 			add(1, 1, -1, all, []int{1, 2})
 			add(2, 2, 3, all, []int{1, 2})
@@ -303,6 +342,7 @@ func c19Configs(tier string, race bool) []c19Cfg {
 			add(0, 3, 3, all, []int{2})
 		} else {
 			add(2, 0, 2, all, []int{2})
+			addPartial(2, 2)
 			add(1, 1, 2, all, []int{1, 2})
 			add(2, 2, 2, all, []int{2})
 			add(1, 2, 2, all, []int{1})
@@ -310,6 +350,7 @@ func c19Configs(tier string, race bool) []c19Cfg {
 		return r
 	}
 	add(2, 0, -1, all, []int{1, 2})
+	addPartial(2, -1)
 	add(3, 0, -1, all, []int{2})
 	add(1, 1, -1, all, []int{1, 2})
 	add(2, 2, -1, all, []int{1, 2})
@@ -444,7 +485,7 @@ func init() {
 			c.Set("distinct_nontrivial", states)
 			c.Set("configs", report)
 			c.Sample(map[string]any{"cfg": c19Cfg{T: "int8", C: 2, R: 2, W: 2, Menu: 0, Bound: -1}, "threads": "readers: samples, Read, Slice+reads, conversion source; writers: Slice(lo,hi) then SetSample, Write, conversion destination, Channel.SetSample"})
-			c.Set("rule", "one shared buffer (6 frames, 1-2 channels, int8/uint16/float32) split into a read-only region and one 2-frame range per writer; R readers run every read-only entry point (Sample, shape methods, BufferIndex, Read, ReadStriped, Slice + reads, Channel views, the three conversion families with the shared buffer as source), W writers each take their own Slice and use SetSample, Write, WriteStriped, Channel.SetSample and a conversion with the window as destination; every interleaving at operation granularity (state-key pruning) for (R,W) in {(2,0),(3,0),(1,1),(2,2),(1,2)} [+ (4,0),(3,2),(0,3),(2,3) thorough]; oracle: every thread's observations, the final contents and the shape equal those of the sequential schedule; the bounded pass in the -race build reports conflicting accesses")
+			c.Set("rule", "one shared buffer (6 frames, 1-2 channels, int8/uint16/float32; readers-only variants with 2-3 channels whose last frame is partly filled and whose header nobody touched before the threads start) split into a read-only region and one 2-frame range per writer; R readers run every read-only entry point (Sample, shape methods, BufferIndex, Read, ReadStriped, Slice + reads, Channel views, the three conversion families with the shared buffer as source), W writers each take their own Slice and use SetSample, Write, WriteStriped, Channel.SetSample and a conversion with the window as destination; every interleaving at operation granularity (state-key pruning) for (R,W) in {(2,0),(3,0),(1,1),(2,2),(1,2)} [+ (4,0),(3,2),(0,3),(2,3) thorough]; oracle: every thread's observations, the final contents and the shape equal those of the sequential schedule; the bounded pass in the -race build reports conflicting accesses")
 			c.Assume("operation granularity suffices because the race monitor shows the operations conflict-free on every explored schedule (conflict-free operations are both-movers)", "the Go race detector is trusted as happens-before monitor; GOMAXPROCS 1 by construction")
 		},
 		RunCase: func(c *core.Ctx, raw json.RawMessage) []F {
